@@ -207,6 +207,7 @@ fn attr_text(a: &str, args: &str) -> String {
         ("compress", "valid1") | ("slicedFormat", "valid1") => Some(vec!["Args"]),
         ("compress", "valid2") | ("slicedFormat", "valid2") => Some(vec!["Args", "Return"]),
         ("compress", "casewrong") | ("slicedFormat", "casewrong") => Some(vec!["args"]),
+        (_, "dupfile") => Some(vec!["DuplicateFile"]),
         (_, "valid2") => Some(vec!["x", "y"]),
         (_, "invalid") => Some(vec!["Bogus"]),
         (_, "casewrong") => Some(vec!["bogus"]),
